@@ -311,6 +311,8 @@ func (m *KVMon[K, V]) checkKeysValues() {
 	if !m.A.Aligned && !sameMultiset(vs, wantVals) {
 		c.Fail("values", "multiset", "%s.Values() = %s is not the multiset of current values %s", m.A.Name, short(vs), short(wantVals))
 	}
+	ruin(ks)
+	ruin(vs)
 	c.Count("obs:Keys+Values", 1)
 }
 
